@@ -27,6 +27,7 @@ from ..scripted_rng import enumerate_outcomes
 
 ID = 'C13'
 LEVEL = 'exploration'
+DEBUG_TOGGLE = True  # runner flips the library debug flag every 97 monitored executions
 TECHNIQUE = 'runtime monitoring: post-condition predicate per reset function (written from the statement) on every state returned by the real factory-built reset functions over a parameter grid x seeds; outcome injection (scripted generator) enumerating all random outcomes for the smallest accepted shapes; exception-class monitor for parameters that cannot be honoured'
 LEVEL_TEXT = ('Every call of every built-in reset function (through the real factory) over a grid of shapes 1x1..9x9 (thorough '
               '14x14, square and not), flags, counts (-1, 0, 1, .., saturation, saturation+1), layouts (1..4)^2 and colour sets '
